@@ -30,7 +30,8 @@ RULE = (
     "explicit or default output/pop aggregation methods; optional time bins (width / edges / 'all', integrate / average / default), interpolation years; "
     "result cascades (framework by name/index/None, ad hoc lists and nested dicts) and data cascades (stages over databook quantities, usually sharing "
     "constituents) with years; 0-2 (quick) plot/export calls.  Inside check() every ordered subset of the output list and of the population list is "
-    "requested (exhaustive over that finite space), plus pops='total' and the same request for two results in one call (both orders).  non-trivial = (>=2 populations and the request mixes number and dimensionless outputs) or a "
+    "requested (exhaustive over that finite space), plus pops='total', the same request for two results in one call (both orders) and, for 0-2 further runs of the same project "
+    "on other time grids (other dt / start / end), every ordered subset of the results in one call; extra databook entries in several years and year lists in drawn (unsorted) order for the data cascades.  non-trivial = (>=2 populations and the request mixes number and dimensionless outputs) or a "
     "data cascade whose stages share constituents; distinct = distinct case hash"
 )
 ASSUMPTIONS = [
@@ -43,7 +44,7 @@ ASSUMPTIONS = [
     "weighted averages are not compared at time points where value x weight underflows (below 1e-280): value x weight / weight then loses digits",
 ]
 BUDGET = {"quick": 1600, "thorough": 40000}
-TIME_CAP = {"quick": 55, "thorough": 1100}
+TIME_CAP = {"quick": 45, "thorough": 1100}
 PROFILE = {"max_pops": 3, "p_timed": 0.2, "p_junction": 0.3, "max_steps": 12, "extreme": 0.0, "characs": True, "p_transfer": 0.5}
 LIBS = ["hypertension", "hiv", "diabetes", "tb_simple", "udt"]
 RTOL = 1e-12
@@ -63,8 +64,22 @@ def lib(name):
         s = P.settings
         P.settings.update_time_vector(start=s.sim_start, end=s.sim_start + 4, dt=0.5)
         res = P.run_sim(P.parsets[0], result_name="lib")
-        _LIB[name] = {"P": P, "res": res, "F": P.framework, "D": P.data, "V": H.vocab_from_result(P, res)}
+        _LIB[name] = {"P": P, "res": res, "F": P.framework, "D": P.data, "V": H.vocab_from_result(P, res), "runs": {}, "grid": (s.sim_start, s.sim_end, s.sim_dt)}
     return _LIB[name]
+
+
+def lib_run(name, start, end, dt):
+    """the library project simulated on another time grid (cached per process)"""
+    L = lib(name)
+    key = (start, end, dt)
+    if key not in L["runs"]:
+        P = L["P"]
+        try:
+            P.settings.update_time_vector(start=start, end=end, dt=dt)
+            L["runs"][key] = P.run_sim(P.parsets[0], result_name="run %d" % (len(L["runs"]) + 2))
+        finally:
+            P.settings.update_time_vector(start=L["grid"][0], end=L["grid"][1], dt=L["grid"][2])
+    return L["runs"][key]
 
 
 # --------------------------------------------------------------------------- generation
@@ -243,14 +258,34 @@ def requests(draw, V, tier):
             if yrs is not None and len(yrs) == 1 and draw(st.booleans()):
                 yrs = yrs[0]
             req["cascades"].append({"cascade": c, "pops": draw(_pop_arg(V)), "year": yrs})
+    # extra databook entries (entered into a copy of the databook before the data cascades are read), so that several years carry data
+    req["data_edits"] = []
+    edit_years = sorted({float(y) for y in V["data_years"]} | {V["start"] + 2.0, V["start"] + 3.0})
+    edited = []
+    if V["data_names"] and draw(st.integers(0, 3)) > 0:
+        edited = draw(st.lists(st.sampled_from(edit_years), min_size=1, max_size=3, unique=True))
+        for y in edited:
+            full = draw(st.integers(0, 2)) > 0  # mostly every quantity and population gets a value, so that stage sums are numbers
+            for nm in V["data_names"]:
+                for pop in V["pops"]:
+                    if full or draw(st.booleans()):
+                        req["data_edits"].append([nm, pop, y, float(draw(st.integers(0, 5000)))])
     for _ in range(draw(st.integers(0, 2))):
         c = draw(_cascade(V, True))
         if c is not None:
-            dy = [float(y) for y in V["data_years"]]
-            yrs = draw(st.one_of(st.none(), st.lists(st.one_of(st.sampled_from(dy), st.sampled_from([V["start"], V["start"] + 1.0, V["start"] + 0.5, V["end"]])), min_size=1, max_size=3, unique=True)))
+            cand = sorted(set(edited) | {V["start"]}) * 2 + sorted(set(edit_years) | {V["start"] + 0.5, V["end"]})
+            # drawn order is kept: requested years need not be ascending
+            yrs = draw(st.one_of(st.none(), st.lists(st.sampled_from(cand), min_size=1, max_size=4, unique=True)))
             if yrs is not None and len(yrs) == 1 and draw(st.booleans()):
                 yrs = yrs[0]
             req["data_cascades"].append({"cascade": c, "pops": draw(_pop_arg(V)), "year": yrs})
+    # further runs of the same project on other time grids, passed to PlotData together with the main result
+    req["other_runs"] = []
+    for _ in range(draw(st.sampled_from([0, 0, 1, 1, 2]))):
+        dt2 = draw(st.sampled_from([V["dt"] * 2, V["dt"] / 2, 0.25, 0.5, 1.0, 0.2, V["dt"]]))
+        start2 = V["start"] + draw(st.sampled_from([0.0, 0.0, 1.0, 0.5]))
+        nsteps = draw(st.integers(3, 14))
+        req["other_runs"].append({"dt": float(dt2), "start": float(start2), "end": float(start2 + nsteps * dt2)})
     has_c = bool(V["fw_cascades"])
     req["calls"] = draw(st.lists(_call(V, has_c), min_size=0, max_size=2 if tier == "quick" else 4))
     return req
@@ -432,7 +467,7 @@ class Ctx:
         ctx = "%s: outputs=%r pops=%r output_aggregation=%r pop_aggregation=%r; series (%s,%s): %s" % (what, outs, pitems, self.oagg, self.pagg, s.pop, s.output, detail)
         if idx1 is None:
             defaulted = (self.oagg is None and any(isinstance(x, dict) and not isinstance(x[_key(x)], str) for x in outs)) or (self.pagg is None and any(isinstance(x, dict) for x in pitems))
-            bucket = "order-dependence/default-aggregation" if defaulted else "order-dependence/other"
+            bucket = "order-dependence/other-results" if what.startswith("several results") else "order-dependence/default-aggregation" if defaulted else "order-dependence/other"
             raise Violation(ID, bucket, ctx + "; the singleton request [%r] x [%r] reports %r" % (o, p, float(single.vals[idx]) if isinstance(idx, int) else None))
         # the singleton is wrong as well: a value defect; blame the innermost part that is already wrong on its own
         m, level = e.get("method"), e.get("level")
@@ -542,6 +577,57 @@ def _check_lists(c):
         for o in outs:
             c.bounds(p, o)
     c.labels.append("permutation-requests:%s" % ("<=20" if n <= 20 else "<=80" if n <= 80 else ">80"))
+
+
+def _other_contexts(c):
+    """contexts (own reference values included) for the further runs of the request; runs atomica refuses are skipped"""
+    out = []
+    libname = c.case.get("lib")
+    for i, g in enumerate(c.req.get("other_runs") or []):
+        try:
+            if libname:
+                res2 = lib_run(libname, g["start"], g["end"], g["dt"])
+            else:
+                spec2 = dict(c.spec, settings={"start": g["start"], "end": g["end"], "dt": g["dt"]})
+                _b2, res2 = simcase.run_spec(spec2, check_domain=False)
+                res2.name = "run %d" % (i + 2)
+            c2 = Ctx(c.case, res2, c.P, c.D, c.F, c.spec)
+            _validate(c2)
+            if any(x.res.name == res2.name or x.res is res2 for x in [c] + out):
+                continue
+            out.append(c2)
+        except Discard:
+            c.labels.append("other-run:refused")
+        except Violation:
+            raise
+        except Exception as e:
+            c.labels.append("other-run:refused:" + type(e).__name__)
+    return out
+
+
+def _check_results(c):
+    """the value for (result, population, output) is the same whether the result is passed alone, first, last or among others"""
+    others = _other_contexts(c)
+    if not others:
+        return
+    ctxs = [c] + others
+    outs, pitems = c.outputs, c.pop_items
+    for r in range(2, len(ctxs) + 1):
+        for sub in itertools.permutations(ctxs, r):
+            names = [x.res.name for x in sub]
+            try:
+                d = c.at.PlotData([x.res for x in sub], outputs=outs, pops=c.pop_arg, output_aggregation=c.oagg, pop_aggregation=c.pagg)
+            except Exception as e:
+                raise Violation(ID, "order-dependence/exception", "results %r outputs=%r pops=%r raised %s: %s (each result alone did not)" % (names, outs, c.pop_arg, type(e).__name__, str(e)[:200]))
+            for x in sub:
+                x.compare(d, outs, pitems, "several results in one call %r (dt %r)" % (names, [x_.ref.dt for x_ in sub]), result=x.res.name)
+    c.labels.append("results:%d" % len(ctxs))
+    if len({x.ref.dt for x in ctxs}) > 1:
+        c.labels.append("results:dt-differs")
+    if len({(float(x.ref.t[0]), float(x.ref.t[-1])) for x in ctxs}) > 1:
+        c.labels.append("results:span-differs")
+    for x in others:
+        c.labels += [l for l in x.labels if l.startswith("default:")]
 
 
 def _series_map(d):
@@ -727,19 +813,33 @@ def _check_cascades(c):
 def _check_data_cascades(c):
     at = c.at
     shared = False
+    # databook used for the data cascades: a copy with the request's extra entries (the simulation and the plots keep the original)
+    edits = {}
+    Dc = c.D
+    if c.req.get("data_edits") and c.req.get("data_cascades"):
+        import sciris as sc
+
+        Dc = sc.dcp(c.D)
+        for nm, pop, y, v in c.req["data_edits"]:
+            if nm in Dc.tdve and pop in Dc.tdve[nm].ts:
+                Dc.tdve[nm].ts[pop].insert(float(y), float(v))
+                edits[(nm, pop, float(y))] = float(v)
+        c.labels.append("data-edits")
     for cr in c.req.get("data_cascades", []):
         stages = _stages(c, cr["cascade"])
         pops = _pops_of(c, cr["pops"])
         year = cr["year"]
         try:
-            got, t = at.get_cascade_data(c.D, c.F, _arg(cr["cascade"]), pops=_arg(cr["pops"]), year=year)
+            got, t = at.get_cascade_data(Dc, c.F, _arg(cr["cascade"]), pops=_arg(cr["pops"]), year=year)
         except Exception as e:
             raise Discard("atomica refused the data cascade: %s at %s" % (type(e).__name__, simcase.atomica_frame(e)))
-        tq = np.array(c.D.tvec, dtype=float) if year is None else np.atleast_1d(np.array(year, dtype=float))
+        tq = np.array(Dc.tvec, dtype=float) if year is None else np.atleast_1d(np.array(year, dtype=float))
         if not np.array_equal(np.asarray(t, dtype=float), tq):
             raise Violation(ID, "cascade-data/years", "asked %r got time axis %r" % (year, np.asarray(t).tolist()))
 
         def entry(x, p, y):
+            if (x, p, float(y)) in edits:
+                return edits[(x, p, float(y))]
             return H.spec_entry(c.spec, x, p, y) if c.spec is not None else H.data_entry(c.D, x, p, y)
 
         def own(cs):
@@ -762,7 +862,14 @@ def _check_data_cascades(c):
                 # root cause: does the stage alone report the right value?
                 import sciris as sc
 
-                alone, _t = at.get_cascade_data(c.D, c.F, sc.odict([("only", list(cs))]), pops=_arg(cr["pops"]), year=year)
+                if year is not None and np.ndim(year) and list(tq) != sorted(tq):
+                    # the same years in ascending order: does the value of a year depend on the order of the request?
+                    order = np.argsort(tq)
+                    srt, _t = at.get_cascade_data(Dc, c.F, _arg(cr["cascade"]), pops=_arg(cr["pops"]), year=[float(y) for y in tq[order]])
+                    a2 = np.asarray(list(srt.values())[i], dtype=float)
+                    if H.mismatch(a2, o[order], np.abs(o[order]), 1e-12) is None:
+                        raise Violation(ID, "cascade-data/year-order", "stages %r pops %r years %r: stage %d reports %r, databook entries sum to %r; the same years in ascending order report %r" % (stages, pops, tq.tolist(), i, gl[i].tolist(), o.tolist(), a2.tolist()))
+                alone, _t = at.get_cascade_data(Dc, c.F, sc.odict([("only", list(cs))]), pops=_arg(cr["pops"]), year=year)
                 a = np.asarray(alone[0], dtype=float)
                 bucket = "cascade-data/aliasing" if H.mismatch(a, o, np.abs(o), 1e-12) is None else "cascade-data/sum-of-entries"
                 raise Violation(ID, bucket, "stages %r pops %r years %r: stage %d reports %r, databook entries of its constituents sum to %r (alone it reports %r)" % (stages, pops, tq.tolist(), i, gl[i].tolist(), o.tolist(), a.tolist()))
@@ -864,6 +971,7 @@ def check(case):
             _validate(c)
             dig0 = H.digest(res)
             _check_lists(c)
+            _check_results(c)
             _check_time(c)
             _check_interp(c)
             _check_cascades(c)
